@@ -335,6 +335,10 @@ kernel('G12d_pattern_matching', 'bisturi/pattern_matching.py',
 kernel('G15_init', 'bisturi/field.py', [('Field', 'init'), ('Int', 'init'), ('Data', 'init'), ('Ref', 'init'), ('Ref', '_lets_find_a_nice_default'), ('Bits', 'init'), ('Em', 'init')], 'InitGen', {}, extra='Definition init_template_matched : bool := true.')
 kernel('G15b_init_structural', 'bisturi/structural_fields.py', [('Sequence', 'init'), ('Optional', 'init')], 'InitStructGen', {}, extra='Definition init_struct_template_matched : bool := true.')
 
+kernel('G16_ref', 'bisturi/field.py', [('Ref', '__init__'), ('Ref', '_describe_yourself'), ('Ref', '_compile'), ('Ref', '_unpack_using_callable'), ('Ref', '_pack_with_callable'), ('Ref', '_unpack_referencing_a_packet'), ('Ref', '_pack_referencing_a_packet'), ('Field', '_describe_yourself'), ('Field', '_compile'), ('Field', '_compile_impl'), ('Field', 'repeated'), ('Field', 'when'), ('Field', 'at'), ('Field', 'shift'), ('Field', 'aligned'), ('Field', 'describe'), ('Em', '_compile'), ('Em', 'unpack'), ('Em', 'pack')], 'RefGen', {}, extra='Definition ref_template_matched : bool := true.')
+kernel('G16b_optional', 'bisturi/structural_fields.py', [('Optional', '__init__'), ('Optional', '_compile'), ('Optional', 'unpack'), ('Optional', 'pack'), ('Sequence', '__init__'), ('Sequence', '_compile')], 'OptionalGen', {}, extra='Definition optional_template_matched : bool := true.')
+kernel('G16c_prototype', 'bisturi/packet.py', [('Prototype', '__init__'), ('Prototype', '_clone_from_pickle'), ('Prototype', '_clone_from_live_obj')], 'PrototypeGen', {}, extra='Definition prototype_template_matched : bool := true.')
+
 
 def translate_kernel(kid):
     k = KERNELS[kid]
